@@ -233,3 +233,17 @@ Definition ku_step (s : KUSys) (o : ku_op) : KUSys :=
 Definition ku_init : KUSys :=
   {| ku_a := {| ku_own := 0; ku_peer := 0; ku_wr := 0; ku_rd := 0 |};
      ku_b := {| ku_own := 0; ku_peer := 0; ku_wr := 0; ku_rd := 0 |}; ku_ab := []; ku_ba := [] |}.
+
+(* ---- round 4: the fatal alert cannot be written (socket timeout, reset, any exception from send) ------------
+   _sendError -> _sendMsg raises, the exception leaves _getMsg and reaches readAsync's catch-all, which still
+   runs _shutdown(False): closed, session invalidated, nothing delivered; only the alert is missing. *)
+Definition recv_step_f {CS} (alert_sendable : bool) (cr cw : Cfg) (Pr Pw : Prim CS) (e : Endpoint CS) (w : Wire)
+  : Endpoint CS * outcome :=
+  let '(e1, o) := recv_step cr cw Pr Pw e w in
+  match o with
+  | OLocalAlert d =>
+      if alert_sendable then (e1, o)
+      else ({| e_rd := e_rd e1; e_wr := e_wr e1; e_rbuf := e_rbuf e1; e_closed := true; e_resumable := false;
+               e_sent := e_sent e |}, OCrash)
+  | _ => (e1, o)
+  end.
